@@ -7,7 +7,7 @@ CONSTANTS
   Kinds = {"ok"}
   CutCodes <- Codes_none
   UpModes = {"fast"}
-  Requests <- Req_c02
+  Requests <- Req_full
   Routes <- Routes_all
   Entries = {"core", "handler"}
   Timeout = 3
